@@ -1189,6 +1189,7 @@ func checkC09(p *Prog, r *Report) {
 	ruleAbortMachinery(p, r)
 	ruleHTTPStatus(p, r)
 	ruleValidatorsExamineAllLines(p, r)
+	ruleEchoIsPrefix(p, r)
 	r.rule("R09.9", "The rejecting return of the output validators (asa/ios isValidOutput) keeps its audited controlling conditions (tables/guards.tsv rows for C09): a non-empty line is rejected unless it is an INFO: or WARNING: line (ASA: or expected output of that command kind); a further class of lines that is waved through changes these conditions.")
 	ruleGuardTable(p, r, "R09.9", "C09")
 	ruleShortCircuitSkips(p, r, sessionPkgs, newSummarizer(p))
@@ -1503,4 +1504,60 @@ func ruleValidatorsExamineAllLines(p *Prog, r *Report) {
 			"the validator can accept the output before every line was examined: an error line next to an expected warning is missed")
 	}
 	r.floor("R09.8", "output validators", n, 2)
+}
+
+// ruleEchoIsPrefix: R09.10.
+func ruleEchoIsPrefix(p *Prog, r *Report) {
+	r.rule("R09.10", "The echo check is a prefix check: in (*console.Conn).StripEcho the abort is controlled by a test that the response STARTS with the command's echo (s[:len(cmd)] != cmd together with the length test, !strings.HasPrefix(s, cmd), or the found-flag of strings.CutPrefix), not by a search for the echo anywhere in the response (strings.Cut / Contains / Index): text the device printed in front of the echo — an error message belonging to the previous command — must not be discarded silently.")
+	fn := p.Fn("(*console.Conn).StripEcho")
+	if fn == nil {
+		r.fail("R09.10", "anchor|StripEcho", "", "not found", "")
+		return
+	}
+	isPrefixTest := func(cond ssa.Value) bool {
+		c, _ := stripNot(cond)
+		switch x := c.(type) {
+		case *ssa.BinOp:
+			if x.Op != token.NEQ && x.Op != token.EQL {
+				return false
+			}
+			for _, side := range []ssa.Value{x.X, x.Y} {
+				if sl, ok := side.(*ssa.Slice); ok && sl.Low == nil && sl.High != nil {
+					if _, isPar := sl.X.(*ssa.Parameter); isPar {
+						return true
+					}
+				}
+			}
+		case *ssa.Call:
+			if f := x.Common().StaticCallee(); f != nil && shortName(f) == "strings.HasPrefix" {
+				_, isPar := x.Common().Args[0].(*ssa.Parameter)
+				return isPar
+			}
+		case *ssa.Extract:
+			if call, ok := x.Tuple.(*ssa.Call); ok && x.Index == 1 {
+				if f := call.Common().StaticCallee(); f != nil && shortName(f) == "strings.CutPrefix" {
+					return true
+				}
+			}
+		}
+		return false
+	}
+	okAbort, other := false, ""
+	for _, b := range fn.Blocks {
+		i := ifOf(b)
+		if i == nil || !guardsAbort(i) {
+			continue
+		}
+		if isPrefixTest(i.Cond) {
+			okAbort = true
+		} else {
+			c, _ := stripNot(i.Cond)
+			if bo, isB := c.(*ssa.BinOp); isB && (bo.Op == token.LSS || bo.Op == token.GTR || bo.Op == token.LEQ || bo.Op == token.GEQ) {
+				continue // length test that protects the slice expression
+			}
+			other = "the abort depends on " + descValue(i.Cond, 0)
+		}
+	}
+	r.add("R09.10", "echo-prefix-test|(*console.Conn).StripEcho", p.pos(fn.Pos()), "the response must start with the echo of the command", okAbort && other == "",
+		"output printed before the echo is thrown away instead of being reported: an error message of the device is lost and the run goes on. "+other)
 }
